@@ -966,6 +966,25 @@ func (x *Exec) Call(st *State, fn *ssa.Function, args []Value, bind []Value, dep
 	return x.mergeReturns(st, outs)
 }
 
+// srcPhiPos: 1-based position of phi k among the source-level phis of block b (0 for the range index)
+func srcPhiPos(b *ssa.BasicBlock, k int) int {
+	pos := 0
+	for i := 0; i <= k && i < len(b.Instrs); i++ {
+		phi, ok := b.Instrs[i].(*ssa.Phi)
+		if !ok {
+			break
+		}
+		if phi.Comment == "rangeindex" {
+			if i == k {
+				return 0
+			}
+			continue
+		}
+		pos++
+	}
+	return pos
+}
+
 // concreteLens: every string / slice argument has a concrete length and every scalar argument a concrete value
 func (x *Exec) concreteLens(args []Value) bool {
 	for _, a := range args {
@@ -1177,11 +1196,14 @@ func (x *Exec) runRegionP(st *State, fr *Frame, b *ssa.BasicBlock, prev *ssa.Bas
 				if phi.Comment != "" {
 					fr.names[phi.Comment] = TV{phiv[k], phi.Type()}
 				}
-				// phi1, phi2, ...: the loop-carried variables of the block by position (robust against renaming)
-				fr.names[fmt.Sprintf("phi%d", k+1)] = TV{phiv[k], phi.Type()}
-				if x.cur != nil && fr.top && x.cur.fn == fr.fn {
-					if n := x.cur.loopOrd(b); n > 0 {
-						fr.names[fmt.Sprintf("l%dphi%d", n, k+1)] = TV{phiv[k], phi.Type()} // qualified by the loop ordinal (nested loops)
+				// phi1, phi2, ...: the SOURCE-LEVEL loop-carried variables of the block by position (robust against
+				// renaming); the compiler-generated index of a range loop is not counted — it is "rangeindex"
+				if pos := srcPhiPos(b, k); pos > 0 {
+					fr.names[fmt.Sprintf("phi%d", pos)] = TV{phiv[k], phi.Type()}
+					if x.cur != nil && fr.top && x.cur.fn == fr.fn {
+						if n := x.cur.loopOrd(b); n > 0 {
+							fr.names[fmt.Sprintf("l%dphi%d", n, pos)] = TV{phiv[k], phi.Type()} // qualified by the loop ordinal (nested loops)
+						}
 					}
 				}
 			}
